@@ -166,3 +166,42 @@ package lossy
 //@   loop 0: decreases len(row) - x
 //@   ensures len(row) > 0 ==> row[0] == old(row[0])
 //@   ensures forall k int :: 1 <= k && k < len(row) ==> row[k] - row[k-1] == old(row[k])
+//
+// ---- C07: the forward alpha filters, row by row ----
+//
+// What is proved is the value each loop iteration stores (so that it is the
+// rule the matching unfilter inverts): first row = difference to the left
+// neighbour with the first sample stored as is (all three filters; inverted by
+// alphaUnfilterHorizontalRow); later rows = difference to the sample above
+// (vertical), to the left neighbour with the first sample predicted from above
+// (horizontal), or to the clamped gradient left + top - topleft (gradient).
+// The invariants speak about the element written last (quantified versions
+// over the whole row prefix do not discharge in time); that later iterations
+// leave earlier elements alone is therefore not part of the claim.
+// `nosafety`: which rows the slices src/dst/prev denote is 2-D index
+// arithmetic (y*width) outside the solvers' reach; index safety is assumed.
+//@ func alphaFilterVertical
+//@   property C07
+//@   nosafety
+//@   requires base(in) != base(out) && 1 <= width && width <= len(in) && width <= len(out)
+//@   modifies *
+//@   loop 0: invariant 1 <= i && out[0] == in[0] && (i >= 2 ==> out[i-1] == in[i-1] - in[i-2])
+//@   loop 2: invariant 0 <= x && base(dst) == base(out) && base(src) == base(in) && base(prev) == base(in) && (x >= 1 ==> dst[x-1] == src[x-1] - prev[x-1])
+//
+//@ func alphaFilterHorizontal
+//@   property C07
+//@   nosafety
+//@   requires base(in) != base(out) && 1 <= width && width <= len(in) && width <= len(out)
+//@   modifies *
+//@   loop 0: invariant 1 <= i && out[0] == in[0] && (i >= 2 ==> out[i-1] == in[i-1] - in[i-2])
+//@   loop 2: invariant 1 <= x && base(dst) == base(out) && base(src) == base(in) && base(prev) == base(in) && dst[0] == src[0] - prev[0] && (x >= 2 ==> dst[x-1] == src[x-1] - src[x-2])
+//
+//@ pure func gradPred(l uint8, t uint8, tl uint8) uint8 = int(l) + int(t) - int(tl) < 0 ? 0 : (int(l) + int(t) - int(tl) > 255 ? 255 : uint8(int(l) + int(t) - int(tl)))
+//
+//@ func alphaFilterGradient
+//@   property C07
+//@   nosafety
+//@   requires base(in) != base(out) && 1 <= width && width <= len(in) && width <= len(out)
+//@   modifies *
+//@   loop 0: invariant 1 <= i && out[0] == in[0] && (i >= 2 ==> out[i-1] == in[i-1] - in[i-2])
+//@   loop 2: invariant 1 <= x && base(dst) == base(out) && base(src) == base(in) && base(prev) == base(in) && dst[0] == src[0] - prev[0] && (x >= 2 ==> dst[x-1] == src[x-1] - gradPred(src[x-2], prev[x-1], prev[x-2]))
